@@ -1,64 +1,9 @@
 (* build e accepts exactly the strings the expression matches (every
    expression, every string), is well formed and starts at state 0. *)
 From Coq Require Import List NArith Bool Arith Lia.
-From SNT Require Import Automata.Regex Automata.NFA Automata.Build Automata.PathLemmas
+From SNT Require Import Automata.Regex Automata.RegexInd Automata.RegexProofs Automata.NFA Automata.Build Automata.PathLemmas
   Automata.BuildLeaves Automata.BuildOps Automata.BuildFrames Automata.BuildSeq.
 Import ListNotations.
-
-(* induction principle for the nested type *)
-Section RegexInd.
-  Variable P : regex -> Prop.
-  Hypothesis HPred : forall set, P (Pred set).
-  Hypothesis HLit : forall bs, P (Lit bs).
-  Hypothesis HEmpty : P Empty.
-  Hypothesis HNothing : P Nothing.
-  Hypothesis HSeq : forall es, Forall P es -> P (Seq es).
-  Hypothesis HChoice : forall es, Forall P es -> P (Choice es).
-  Hypothesis HPlus : forall e, P e -> P (Plus e).
-  Hypothesis HOpt : forall e, P e -> P (Opt e).
-  Hypothesis HMany : forall e, P e -> P (Many e).
-  Hypothesis HTag : forall t e, P e -> P (Tag t e).
-
-  Fixpoint regex_rect' (e : regex) : P e :=
-    match e with
-    | Pred set => HPred set
-    | Lit bs => HLit bs
-    | Empty => HEmpty
-    | Nothing => HNothing
-    | Seq es => HSeq es ((fix go (es : list regex) : Forall P es :=
-                            match es with
-                            | [] => Forall_nil P
-                            | x :: r => Forall_cons x (regex_rect' x) (go r)
-                            end) es)
-    | Choice es => HChoice es ((fix go (es : list regex) : Forall P es :=
-                                  match es with
-                                  | [] => Forall_nil P
-                                  | x :: r => Forall_cons x (regex_rect' x) (go r)
-                                  end) es)
-    | Plus e => HPlus e (regex_rect' e)
-    | Opt e => HOpt e (regex_rect' e)
-    | Many e => HMany e (regex_rect' e)
-    | Tag t e => HTag t e (regex_rect' e)
-    end.
-End RegexInd.
-
-Lemma matches_Seq es s : matches (Seq es) s <-> matches_seq es s.
-Proof. revert s; induction es as [|e r IH]; intros s; cbn; [tauto|]. reflexivity. Qed.
-
-Lemma matches_Choice es s : matches (Choice es) s <-> matches_any es s.
-Proof.
-  induction es as [|e r IH]; cbn; [tauto|].
-  split; (intros [H | H]; [left; exact H|right; apply IH; exact H]).
-Qed.
-
-Lemma matches_any_In es s : matches_any es s <-> exists e, In e es /\ matches e s.
-Proof.
-  induction es as [|e r IH]; cbn [matches_any In].
-  - split; [intros []|intros [e [[] _]]].
-  - rewrite IH. split.
-    + intros [H | [e' [Hin H]]]; [exists e; auto|exists e'; auto].
-    + intros [e' [[-> | Hin] H]]; [left; exact H|right; exists e'; auto].
-Qed.
 
 Lemma star_ext (L1 L2 : list N -> Prop) :
   (forall s, L1 s <-> L2 s) -> forall s, star L1 s <-> star L2 s.
